@@ -27,6 +27,17 @@ r = np.sqrt(x ** 2 + y ** 2)
 """
 
 
+REF_CALL = """
+slope_max = max(nx, ny)
+slope_min = 0
+while slope_min < slope_max:
+    slope = (slope_max + slope_min) / 2
+    radius_x = np.clip((1 + r * slope) * nx / max(nx, ny), 1, None)
+    radius_y = np.clip((1 + r * slope) * ny / max(nx, ny), 1, None)
+    mask = _poisson(img_shape[-1], img_shape[-2], max_attempts, radius_x, radius_y, calib, seed)
+"""
+
+
 def check(run, M, tier):
     run.rule("B1", "binary-valued abstract domain: the value returned by poisson (and by _poisson) is Bin on every path")
     run.rule("B2", "every returning path of poisson carries |size/sum(mask) - accel| < tol for the mask it returns; other paths raise")
@@ -120,7 +131,7 @@ def check(run, M, tier):
     raising = [o for o in outs if o.status == "raise"]
     if any(e[0] == "get_state" for o in raising for e in o.events):
         run.info("observation: on its error paths poisson does not restore the saved RNG state (nothing was returned; under numba the draws use numba's own generator)")
-    # geometry of r (used by the crop)
+    # geometry of the radius used by the crop, and what reaches _poisson -- all read off terms, never off local names
     pre = []
     for s in f.body:
         if isinstance(s, ast.While):
@@ -129,32 +140,71 @@ def check(run, M, tier):
     vg = VN(M, f)
     cg = vg.run([s for s in pre if not isinstance(s, ast.If)], State())
     rg = VN(M, f).run(ast.parse(REF_GEOM).body, State())
-    okg = len(cg) == 1 and len(rg) == 1 and isinstance(cg[0].env.get("r"), T.Poly) and T.eq(cg[0].env["r"], rg[0].env["r"])
-    run.check(okg, "B4", "poisson radius", f.loc(), "r = sqrt(x^2 + y^2) with x, y the normalised distances beyond the calibration block",
-              "the normalised radius used for density and corner crop is %s" % (T.show(cg[0].env.get("r"), 300) if cg else "?"), stmt="B4:r")
-    # crop applied after the last mask definition inside the loop, before actual_accel
+    want_r = rg[0].env["r"] if len(rg) == 1 else None
     loops = [s for s in f.body if isinstance(s, ast.While)]
     run.floor("B4", 1, len(loops), "search loops in poisson")
+    retname = None
+    for n in walk_no_nested(f.node):
+        if isinstance(n, ast.Return) and isinstance(n.value, ast.Name):
+            retname = n.value.id
     for w in loops:
-        order = []
-        for s in w.body:
-            txt = unparse(s)
-            if isinstance(s, ast.Assign) and unparse(s.targets[0]) == "mask":
-                order.append("def")
-            elif isinstance(s, ast.If) and unparse(s.test) == "crop_corner":
-                inner = [unparse(x).replace(" ", "").replace("(", "").replace(")", "") for x in s.body]
-                order.append("crop" if inner in (["mask*=r<1"], ["mask=mask*r<1"], ["mask=r<1*mask"]) else "crop?")
-            elif isinstance(s, ast.Assign) and unparse(s.targets[0]) == "actual_accel":
-                order.append("accel")
-        run.check(order == ["def", "crop", "accel"], "B4", "poisson loop order", f.loc(w), "mask defined, cropped by r < 1 under crop_corner, then measured",
-                  "inside the search loop the order is %s; expected mask definition, `if crop_corner: mask *= r < 1`, then actual_accel" % order, stmt="B4:order")
-        cs = [c for c in calls_in(w) if isinstance(c.func, ast.Name) and c.func.id == "_poisson"]
-        ok = len(cs) == 1
-        if ok:
-            b = M.bind(cs[0], g)
-            ok = unparse(b["seed"]) == "seed" and unparse(b["calib"]) == "calib" and unparse(b["nx"]) == "img_shape[-1]" and unparse(b["ny"]) == "img_shape[-2]" \
-                and unparse(b["radius_x"]) == "radius_x" and unparse(b["radius_y"]) == "radius_y" and unparse(b["max_attempts"]) == "max_attempts"
-        run.check(ok, "B4", "poisson -> _poisson arguments", f.loc(w), "seed, calib, sizes and radii forwarded", "poisson calls `%s`" % (unparse(cs[0]) if cs else "nothing"), stmt="B4:args")
+        # roles: the mask is what the _poisson call is assigned to; the crop is the statement under `if crop_corner`; the measurement is
+        # the first later statement that reads sum(mask)
+        idx_def = idx_crop = idx_meas = None
+        mname = None
+        crop_ok = False
+        crop_term = None
+        for i_, st_ in enumerate(w.body):
+            if isinstance(st_, ast.Assign) and isinstance(st_.value, ast.Call) and isinstance(st_.value.func, ast.Name) and st_.value.func.id == "_poisson" \
+                    and isinstance(st_.targets[0], ast.Name):
+                idx_def, mname = i_, st_.targets[0].id
+            elif isinstance(st_, ast.If) and unparse(st_.test) == "crop_corner" and mname is not None and idx_crop is None:
+                idx_crop = i_
+                if len(st_.body) == 1 and not st_.orelse:
+                    c_ = st_.body[0]
+                    cmpn = None
+                    if isinstance(c_, ast.AugAssign) and isinstance(c_.op, ast.Mult) and isinstance(c_.target, ast.Name) and c_.target.id == mname:
+                        cmpn = c_.value
+                    elif isinstance(c_, ast.Assign) and isinstance(c_.targets[0], ast.Name) and c_.targets[0].id == mname and isinstance(c_.value, ast.BinOp) \
+                            and isinstance(c_.value.op, ast.Mult):
+                        l_, r_ = c_.value.left, c_.value.right
+                        if isinstance(l_, ast.Name) and l_.id == mname:
+                            cmpn = r_
+                        elif isinstance(r_, ast.Name) and r_.id == mname:
+                            cmpn = l_
+                    if isinstance(cmpn, ast.Compare) and len(cmpn.ops) == 1 and isinstance(cmpn.ops[0], ast.Lt) and isinstance(cmpn.comparators[0], ast.Constant) \
+                            and cmpn.comparators[0].value == 1 and len(cg) == 1:
+                        crop_term = vg.ev(cmpn.left, State(cg[0].env))
+                        crop_ok = True
+            elif mname is not None and idx_meas is None and any(isinstance(c, ast.Call) and (getattr(c.func, "attr", None) == "sum" or getattr(c.func, "id", None) == "sum")
+                                                                and any(isinstance(x, ast.Name) and x.id == mname for a_ in c.args for x in ast.walk(a_))
+                                                                for c in ast.walk(st_)):
+                idx_meas = i_
+        okg = crop_ok and want_r is not None and isinstance(crop_term, T.Poly) and T.eq(crop_term, want_r)
+        run.check(okg, "B4", "poisson radius", f.loc(w), "the crop keeps r < 1 with r = sqrt(x^2 + y^2), x, y the normalised distances beyond the calibration block",
+                  "the corner crop of poisson compares %s with 1; expected the normalised elliptical radius sqrt(x^2 + y^2)"
+                  % (T.show(crop_term, 300) if isinstance(crop_term, T.Poly) else "nothing recognisable"), stmt="B4:r")
+        order_ok = None not in (idx_def, idx_crop, idx_meas) and idx_def < idx_crop < idx_meas and crop_ok and mname == retname
+        run.check(order_ok, "B4", "poisson loop order", f.loc(w), "mask defined, cropped by r < 1 under crop_corner, then measured; the same variable is returned",
+                  "inside the search loop of poisson the statements (mask definition, `if crop_corner: mask *= r < 1`, measurement of sum(mask)) are at positions %s "
+                  "(crop recognised: %s, returned variable %s, mask variable %s)" % ((idx_def, idx_crop, idx_meas), crop_ok, retname, mname), stmt="B4:order")
+        # arguments of _poisson as terms after one symbolic iteration
+        got_args, want_args = {}, {}
+
+        def mk_hook(store):
+            def h(vn_, call, st):
+                if isinstance(call.func, ast.Name) and call.func.id == "_poisson":
+                    b_ = M.bind(call, g)
+                    for p_, n_ in b_.items():
+                        store[p_] = vn_._as_term(vn_.ev(n_, st))
+                    return T.sym("MASK")
+                return hook(vn_, call, st)
+            return h
+        VN(M, f, call_hook=mk_hook(got_args), loop_hook=iter_once_while).run(f.body, State())
+        VN(M, f, call_hook=mk_hook(want_args), loop_hook=iter_once_while).run(ast.parse(REF_GEOM + REF_CALL).body, State())
+        diff = sorted(p_ for p_ in set(got_args) | set(want_args) if T.enc(got_args.get(p_)) != T.enc(want_args.get(p_)))
+        run.check(bool(got_args) and not diff, "B4", "poisson -> _poisson arguments", f.loc(w), "seed, calib, sizes and the per-axis radii clip((1 + r*slope) n/max(nx, ny), 1) forwarded",
+                  "poisson calls _poisson with %s; expected %s" % ({p_: T.show(got_args.get(p_), 160) for p_ in diff}, {p_: T.show(want_args.get(p_), 160) for p_ in diff}), stmt="B4:args")
     # _poisson: seed before first draw; only literal 1 stored
     isrand = lambda c: (M.resolve_call(g, c)[0] == "ext" and M.resolve_call(g, c)[1].startswith("numpy.random."))
     # top-level statement order: the guarded seeding statement precedes the first statement that draws
@@ -173,13 +223,17 @@ def check(run, M, tier):
               "`if seed is not None: np.random.seed(int(seed))` precedes the first draw",
               "_poisson does not seed (np.random.seed(int(seed)) under `seed is not None`) before its first random draw (seed statement %s, first draw statement %s)"
               % (seed_at, draw_at), stmt="B4:seed-first")
-    stores = [n for n in walk_no_nested(g.node) if (isinstance(n, ast.Assign) and isinstance(n.targets[0], ast.Subscript) and unparse(n.targets[0].value) == "mask")
-              or (isinstance(n, ast.AugAssign) and isinstance(n.target, ast.Subscript) and unparse(n.target.value) == "mask")]
+    gmask = None
+    for n in walk_no_nested(g.node):
+        if isinstance(n, ast.Return) and isinstance(n.value, ast.Name):
+            gmask = n.value.id
+    stores = [n for n in walk_no_nested(g.node) if (isinstance(n, ast.Assign) and isinstance(n.targets[0], ast.Subscript) and unparse(n.targets[0].value) == gmask)
+              or (isinstance(n, ast.AugAssign) and isinstance(n.target, ast.Subscript) and unparse(n.target.value) == gmask)]
     run.floor("B4", 2, len(stores), "stores into the mask in _poisson")
     for s_ in stores:
         run.check(isinstance(s_, ast.Assign) and isinstance(s_.value, ast.Constant) and s_.value.value == 1, "B4", "_poisson mask store", g.loc(s_), "stores the literal 1",
                   "_poisson stores `%s` into the mask; calibration and sample points must stay 1" % unparse(s_), stmt=s_)
     cal = [s_ for s_ in stores if isinstance(s_, ast.Assign) and isinstance(s_.targets[0].slice, ast.Tuple) and all(isinstance(x, ast.Slice) for x in s_.targets[0].slice.elts)]
     want_cal = "mask[int(ny / 2 - calib[-2] / 2):int(ny / 2 + calib[-2] / 2), int(nx / 2 - calib[-1] / 2):int(nx / 2 + calib[-1] / 2)] = 1"
-    run.check(len(cal) == 1 and unparse(cal[0]).replace(" ", "") == want_cal.replace(" ", ""), "B4", "_poisson calibration block", g.loc(),
+    run.check(len(cal) == 1 and unparse(cal[0]).replace(" ", "") == want_cal.replace("mask[", "%s[" % gmask).replace(" ", ""), "B4", "_poisson calibration block", g.loc(),
               "centred calib[-2] x calib[-1] block set to 1", "calibration block store is `%s`" % (unparse(cal[0]) if cal else "missing"), stmt="B4:calib")
